@@ -76,6 +76,8 @@ def shard(args):
             gens.append(families.ws_padding(base))
             gens.append(families.token_overlays(base, country))
             gens.append(families.wrapped(base))
+            # every value of every small minor field (currency code, account type, ...), rechecked
+            gens.append((lab, bases.iban_text(country, b)) for lab, b, _ in families.small_field_bodies(c0, base[4:]))
         if tier == "thorough" and filler in ("distinct", "letters"):
             gens.append(families.double_subst(base))
         k, v = lib.iban_parse(base)
